@@ -205,6 +205,13 @@ func (x *Exec) fieldComp(structT types.Type, i int) (string, string, types.Type)
 
 func (x *Exec) elemComp(elemT types.Type) (string, string) {
 	s := x.X.sortOf(elemT)
+	if p, ok := elemT.(*types.Pointer); ok && !x.X.bvMode {
+		// slices of pointers to distinct named types never share a backing array (no
+		// conversion between them exists in Go without unsafe): one element heap per pointee
+		if n, ok := p.Elem().(*types.Named); ok && n.TypeArgs().Len() == 0 && n.Obj().Pkg() != nil {
+			return "E_ptr_" + sanitize(n.Obj().Pkg().Name()+"_"+n.Obj().Name()), "(Array Int (Array Int " + s + "))"
+		}
+	}
 	return "E_" + sanitize(s), "(Array Int (Array Int " + s + "))"
 }
 
@@ -721,7 +728,7 @@ func (x *Exec) callModifies(in ssa.CallInstruction) ([]string, bool) {
 		if fc.Pure || !fc.HasMod {
 			return nil, false
 		}
-		return nil, true
+		return x.modComps(fc, callee)
 	}
 	name := callee.String()
 	if _, ok := pureExterns[name]; ok {
@@ -733,6 +740,15 @@ func (x *Exec) callModifies(in ssa.CallInstruction) ([]string, bool) {
 	switch name {
 	case "strconv.ParseUint", "fmt.Errorf", "errors.New", "time.Now":
 		return nil, false
+	}
+	if strings.HasPrefix(name, "math/rand/v2.") || strings.HasPrefix(name, "math/rand.") {
+		return nil, false
+	}
+	if strings.HasPrefix(name, "(*google.golang.org/grpc/resolver.EndpointMap[") {
+		switch baseName(callee) {
+		case "Get", "Set", "Delete", "Len":
+			return nil, false
+		}
 	}
 	if strings.Contains(name, "status.Error") {
 		return nil, false
